@@ -28,6 +28,8 @@ void runSlot(const Scn &scn, Out &out)
 {
     QStringList *obs = &out.obs;
     SlotObj obj; obj.obs = obs;
+    SlotObj2 obj2; obj2.obs = obs;
+    int good2 = 0;
     QObjectHandler handler;
     QByteArray stream;
     QStringList events;
@@ -48,6 +50,12 @@ void runSlot(const Scn &scn, Out &out)
                     case 3: handler.registerMethod(name, &obj, &SlotObj::s3, ra); break;
                     default: handler.registerMethod(name, &obj, &SlotObj::s4, ra); break;
                 }
+            } else if (p[2] == "old2") {
+                // the string form on a receiver of the other class
+                int k = good2++ % 5; obj2.idx[k] = me;
+                static const char *sl2[5] = { SLOT(s0(QHttpEngine::Socket*)), SLOT(s1(QHttpEngine::Socket*)), SLOT(s2(QHttpEngine::Socket*)),
+                                              SLOT(s3(QHttpEngine::Socket*)), SLOT(s4(QHttpEngine::Socket*)) };
+                handler.registerMethod(name, &obj2, sl2[k], ra);
             } else if (p[2] == "missing") handler.registerMethod(name, &obj, SLOT(nosuch(QHttpEngine::Socket*)), ra);
             else if (p[2] == "wrongsig") handler.registerMethod(name, &obj, SLOT(wrong(int)), ra);
             else if (p[2] == "functor") handler.registerMethod(name, [obs, me](Socket *s) { obs->append(QString("slot:%1:%2").arg(me).arg(s->bytesAvailable())); }, ra);
@@ -68,6 +76,23 @@ void runSlot(const Scn &scn, Out &out)
     int k = 0;
     foreach (const QString &t, events) {
         QStringList p = t.split(':');
+        if (p[0] == "warm") {
+            // an earlier complete request on another connection, served by the same handler; not observed
+            int mark = obs->size();
+            QPointer<SimTcp> wt = new SimTcp;
+            QStringList sink2; wt->log = &sink2;
+            QPointer<Socket> ws = new Socket(wt);
+            Socket *w = ws;
+            QObject::connect(w, &Socket::headersParsed, [&handler, w]() { handler.route(w, w->path().mid(1)); });
+            wt->feed(unhx(p[1]));
+            eventTurn(); eventTurn();
+            if (wt) { wt->log = nullptr; wt->peerClose(); }
+            eventTurn();
+            if (ws) delete ws.data();
+            eventTurn();
+            while (obs->size() > mark) obs->removeLast();
+            continue;
+        }
         if (!(k > 0 && !sock)) *obs << QString("e:%1").arg(k);
         ++k;
         if (p[0] == "new") {
@@ -82,7 +107,7 @@ void runSlot(const Scn &scn, Out &out)
     }
     out.obs << "end";
     QStringList sink;
-    obj.obs = &sink;
+    obj.obs = &sink; obj2.obs = &sink;
     if (tcp) tcp->log = nullptr;
     if (sock) { QObject::disconnect(sock, nullptr, nullptr, nullptr); delete sock.data(); }
     if (tcp) delete tcp.data();      // a scenario without `new`: nothing took ownership of the transport
